@@ -84,6 +84,9 @@ func jwksInChild(sb *stub) error {
 	cmd := exec.CommandContext(ctx, os.Args[0], "jwks-child")
 	cmd.Stdin = strings.NewReader(string(job))
 	out, err := cmd.CombinedOutput()
+	if strings.Contains(string(out), "HANG:") {
+		panic(childCrash{"hang: " + strings.TrimSpace(string(out))})
+	}
 	if err != nil { // crashed (or hung and was killed)
 		tail := string(out)
 		if len(tail) > 600 {
@@ -104,10 +107,26 @@ func jwksChild() {
 	hc := &http.Client{Transport: &stub{status: job.Status, body: job.Body, ctype: job.CType, clen: job.CLen, clenV: job.CLenV}}
 	ks := rp.NewRemoteKeySet(hc, opfix.Issuer+"/keys")
 	jws, err := parseJWS(sign(opfix.ECKey("someone-else"), "ES256", "kx", []byte(`{"sub":"a"}`)))
-	if err == nil {
-		ctx, cancel := context.WithTimeout(context.Background(), 5*time.Second)
-		defer cancel()
-		_, err = ks.VerifySignature(ctx, jws)
+	if err != nil {
+		fmt.Println(err)
+		os.Exit(0)
+	}
+	// two calls on the SAME key set, each under its own context and a watchdog: a call that has not returned
+	// long after its context ended (or that never returns because the first one left a lock behind) is a hang
+	for n := 1; n <= 2; n++ {
+		done := make(chan error, 1)
+		go func() {
+			ctx, cancel := context.WithTimeout(context.Background(), time.Second)
+			defer cancel()
+			_, err := ks.VerifySignature(ctx, jws)
+			done <- err
+		}()
+		select {
+		case err = <-done:
+		case <-time.After(6 * time.Second):
+			fmt.Printf("HANG: call %d on the key set had not returned 5 s after its context ended\n", n)
+			os.Exit(3)
+		}
 	}
 	fmt.Println(err)
 	os.Exit(0)
@@ -231,7 +250,21 @@ func clientCases(w *emit.Writer, g *gen, n int) {
 			body = doc.Bytes(r, true)
 		default:
 			doc = g.doc(h.sc)
-			if h.name == "HJwks" && r.Bool() {
+			if h.name == "HJwks" && r.Chance(1, 2) { // well-formed key sets without a usable key, duplicates, mixtures
+				good := func(kid string) *J {
+					return jobj(kv{"kty", jstr("EC")}, kv{"crv", jstr("P-256")}, kv{"kid", jstr(kid)}, kv{"use", jstr("sig")}, kv{"alg", jstr("ES256")},
+						kv{"x", jstr("f83OJ3D2xF1Bg8vub9tLe1gHMzV76e8Tus9uPHvRVEU")}, kv{"y", jstr("x_FEzRu9m36HLN_tue659LNpXW6pCyStikYjKIWI5a0")})
+				}
+				unknown := func() *J {
+					return drv.Pick(r, []*J{jobj(kv{"kty", jstr("XYZ")}, kv{"kid", jstr("u1")}), jobj(kv{"kty", jstr("OKP")}, kv{"crv", jstr("X448")}, kv{"x", jstr("AA")}),
+						jobj(kv{"kty", jint(1)}), jobj(), jobj(kv{"kty", jstr("EC")}, kv{"crv", jstr("P-999")}, kv{"x", jstr("AA")}, kv{"y", jstr("AA")}), jobj(kv{"kty", jstr("oct")}, kv{"k", jstr("AA")})})
+				}
+				doc = drv.Pick(r, []*J{
+					jobj(kv{"keys", jarr()}), jobj(kv{"keys", jarr()}), jobj(kv{"keys", jarr(unknown())}), jobj(kv{"keys", jarr(unknown(), unknown())}),
+					jobj(kv{"keys", jarr(good("a"), good("a"))}), jobj(kv{"keys", jarr(good("kx"), good("kx"), unknown())}), jobj(kv{"keys", jarr(good(""), good(""))}),
+					jobj(kv{"keys", jnull()}), jobj(), jobj(kv{"keys", jarr(good("a"), unknown())}), jobj(kv{"keys", jarr()}, kv{"keys", jarr(good("b"))}), jobj(kv{"Keys", jarr(good("a"))}),
+					jobj(kv{"keys", jobj()}), jobj(kv{"keys", jarr(jnull())}), jobj(kv{"keys", jarr(jarr())})})
+			} else if h.name == "HJwks" && r.Bool() {
 				doc = jobj(kv{"keys", jarr(jobj(kv{"kty", g.any(1)}, kv{"crv", jstr("P-256")}, kv{"x", g.any(1)}, kv{"y", jstr("AA")}, kv{"kid", g.any(1)}, kv{"use", g.any(0)}),
 					jobj(kv{"kty", jstr("RSA")}, kv{"n", g.any(1)}, kv{"e", jstr("AQAB")}), g.any(1))})
 			}
@@ -281,6 +314,8 @@ func clientCases(w *emit.Writer, g *gen, n int) {
 		p := drv.Catch(func() { err = h.call(expect) })
 		obs := "CRetOk"
 		switch {
+		case strings.HasPrefix(p, "hang:"):
+			obs = "CHang"
 		case p != "":
 			obs = "CPanic"
 		case err != nil || h.name == "HJwks":
@@ -393,6 +428,8 @@ func deviceCases(w *emit.Writer, g *gen, n int) (ambiguous int) {
 		}
 		obs := "CRetOk"
 		switch {
+		case strings.HasPrefix(p, "hang:"):
+			obs = "CHang"
 		case p != "":
 			obs = "CPanic"
 		case err != nil:
